@@ -145,6 +145,20 @@ def table_for(is_right: bool, swap: bool, reverse: bool):
     return {FACE: {0: {AX: tuple(f0)}, 1: {b_axis: tuple(f1)}}}
 
 
+def respell(table):
+    """The same face-connection table in another legitimate spelling: links as lists [face, axis, reverse] (a table read
+    from JSON) and reverse flags as the integers 1 / 0 (a table built from a numeric array).  Truth and equality are those of
+    True / False; identity (`is False`) and the type (`isinstance(link, tuple)`) are not."""
+    out = {}
+    for fd, faces in table.items():
+        out[fd] = {}
+        for f, per_axis in faces.items():
+            out[fd][f] = {}
+            for ax, links in per_axis.items():
+                out[fd][f][ax] = tuple(None if l is None else [l[0], l[1], int(bool(l[2]))] for l in links)
+    return out
+
+
 def table_pair(left, right):
     """Three-face table: face 0 has a left link of kind `left` = (swap, reverse) to face 1 and a right link of kind
     `right` to face 2 (None = no link); faces 1 and 2 hold the reciprocal links."""
